@@ -126,8 +126,8 @@ const (
 
 func (w *vfWorld) seedCollection(name string, num int32) {
 	w.store.Collections = append(w.store.Collections, &schema.CollectionDoc{Name: name, Num: num})
-	if w.store.Counter < num+1 {
-		w.store.Counter = num + 1
+	if w.store.Counter < num {
+		w.store.Counter = num // the counter document holds the last number handed out
 	}
 }
 
